@@ -440,7 +440,7 @@ pub fn run(ctx: &mut Ctx) {
     // ---- the three ways of leaving (close, shut down sending, shut down both... as far as the alphabet goes) with
     // 0..2 requests in flight, answered before or after the client left, next to 0..9 bystanders
     let mut idx = 0u64;
-    for leave in 0..3usize {
+    for leave in 0..5usize {
         for inflight in 0..3usize {
             for answer_after in [false, true] {
                 for bystanders in [0usize, 3, 9] {
@@ -469,6 +469,19 @@ pub fn run(ctx: &mut Ctx) {
                     }
                     match leave {
                         0 => acts.push(Act::Close(0)),
+                        3 => {
+                            // the application finds out: it flushes to a client that has just gone
+                            acts.push(Act::RespondAll(Size::Small));
+                            acts.push(Act::Close(0));
+                            acts.push(Act::Flush);
+                        }
+                        4 => {
+                            acts.push(Act::RespondAll(Size::Medium));
+                            acts.push(Act::ShutRd(0));
+                            acts.push(Act::Flush);
+                            acts.push(Act::Flush);
+                            acts.push(Act::Close(0));
+                        }
                         1 => acts.push(Act::ShutWr(0)),
                         _ => {
                             acts.push(Act::ShutWr(0));
